@@ -345,8 +345,10 @@ def is_repeat_with_in_list(ro: RepeatOperation):
             assign_fn_par:LoadListOperation = \
                 cast(LoadListOperation, assign_fn.parameters)
 
+            # The index given to getAt is the loop's own counter (the value
+            # the condition compares with the count), not another constant 1
             if (cond_func_par.operands[0] != assign_fn_par.operands[1]
-                or assign_fn_par.operands[0].name != '1'):
+                or assign_fn_par.operands[0] != cond.left):
                 return False
     
             return True
